@@ -827,6 +827,10 @@ func Validate(dir Dir) error {
 			case idx == i:
 				// If the file is in its original place, it was edited.
 				err.Reason = ReasonEdited
+			case i >= len(ex):
+				// The sum file has more entries than the directory has files, and this
+				// entry repeats a file listed earlier: the line does not belong here.
+				err.Reason = ReasonRemoved
 			default:
 				// File was not in its original place, meaning another file was added before it.
 				err.File = ex[i].N
@@ -837,9 +841,11 @@ func Validate(dir Dir) error {
 		// If we land here, all migrations in the sum file are present unchanged in the computed sum.
 		// But there is a mismatch, meaning the next file in the computed sum was added.
 		err.Line = err.Total + 2 // first line is global hash
-		err.File = ex[err.Total].N
 		err.Pos = pos
 		err.Reason = ReasonAdded
+		if err.Total < len(ex) {
+			err.File = ex[err.Total].N
+		}
 		return err
 	}
 	return nil
